@@ -32,6 +32,8 @@ class GammaPriorConcentrationSampler(object):
         if num_clusters == 0:
             new_value = gamma.rvs(self.a, scale=(1 / self.b), random_state=self._rng)
 
+            new_value = max(new_value, 1e-10)  # Catch numerical error
+
         else:
             a = self.a
 
